@@ -213,6 +213,9 @@ pub fn run(t: &[&str]) -> String {
     let contig = kv.get("contig").is_some() && !c.extra.is_empty() && engines.is_empty();
     if contig { mem.extend(std::iter::repeat(0xEEu8).take(16)); mem.extend_from_slice(&c.extra[0]); }
     let membase = mem.as_ptr() as u64; let mbuffbase = mbuff.as_ptr() as u64;
+    // `overlap=1` (load-only probes): the metadata buffer is the first bytes of the packet's own allocation (a header slice handed in as metadata)
+    let overlap = kv.get("overlap").is_some() && engines.is_empty() && mbuff.len() <= mem.len();
+    let mbuffbase = if overlap { membase } else { mbuffbase };
     if contig { extrabase[0] = membase + c.mem.len() as u64 + 16; }
     let mut prog = c.prog.clone();
     apply_patches(&mut prog, &c.patch, membase, mbuffbase, &extrabase);
@@ -221,7 +224,7 @@ pub fn run(t: &[&str]) -> String {
     let progref: &[u8] = &prog; let proberef: &[u8] = &probe;
     let cref = &c; let ebref = &extrabase;
     let mem_ptr = mem.as_mut_ptr(); let mem_len = if contig { c.mem.len() } else { mem.len() };
-    let mbuff_ptr = mbuff.as_mut_ptr(); let mbuff_len = mbuff.len();
+    let mbuff_ptr = if overlap { mem.as_mut_ptr() } else { mbuff.as_mut_ptr() }; let mbuff_len = mbuff.len();
     let kindr = kind.as_str();
     let mut fixedbase: u64 = 0;
     let mut engine_out: Vec<String> = vec![];
@@ -862,6 +865,24 @@ pub fn gen_memprobe(w: &mut impl Write, thorough: bool, seed: u64) {
                 }
             } }
         }
+    }
+    // overlapping regions: the metadata buffer is a header slice of the packet (its first 8 bytes); loads inside the packet that start in the header and end
+    // beyond it lie wholly inside one region (the packet) and are carried out, as are loads inside the header and beyond it
+    {
+        let mem = pattern(32, 11); let mb: Vec<u8> = mem[..8].to_vec();
+        for &(ldx, _st, _stx, _labs, _lind, wd) in &widths { for start in 0i64..12 { for off in [0i16, -8, 127] {
+            let mut p = vec![]; init_regs(&mut p);
+            p.extend(lddw(6, 0)); let patch = format!("{}:mem:{}", p.len() / 8 - 2, start - off as i64);
+            p.extend(ins(ldx, 2, 6, off, 0)); p.extend(ins(0xb7, 6, 0, 0, 0)); fold_exit(&mut p);
+            let _ = wd;
+            writeln!(w, "exec tag=memprobe prog={} mem={} mbuff={} overlap=1 patch={} budget=300", hex(&p), hex(&mem), hex(&mb), patch).unwrap();
+        } } }
+        for start in [24i64, 25, 28, 31, 32] { for &(ldx, _st, _stx, _labs, _lind, _wd) in &widths {
+            let mut p = vec![]; init_regs(&mut p);
+            p.extend(lddw(6, 0)); let patch = format!("{}:mbuff:{}", p.len() / 8 - 2, start);
+            p.extend(ins(ldx, 2, 6, 0, 0)); p.extend(ins(0xb7, 6, 0, 0, 0)); fold_exit(&mut p);
+            writeln!(w, "exec tag=memprobe prog={} mem={} mbuff={} overlap=1 patch={} budget=300", hex(&p), hex(&mem), hex(&mb), patch).unwrap();
+        } }
     }
     // several registered ranges: an access must lie inside ONE of them — two ranges separated by a gap, adjacent ranges, nested
     // ranges; accesses starting in one and ending in the other (over the gap), entirely inside either, and inside the gap
